@@ -27,6 +27,8 @@ type c12Input struct {
 	Bound int `json:"bound,omitempty"`
 	// Bool: the comparison carries the `bool` modifier.
 	Bool bool `json:"bool,omitempty"`
+	// Parens: redundant pairs of parentheses around each operand of the outermost operation.
+	Parens int `json:"parens,omitempty"`
 }
 
 // sample seconds per (side, a): chosen so that the three steps see different counts (including none)
@@ -135,11 +137,11 @@ func c12Build(in c12Input) ([]mockq.Rec, refmodel.Expr) {
 		}
 		return data, &refmodel.Bin{Op: in.Op, L: b, R: &refmodel.Bin{Op: in.Op, L: x, R: a}}
 	case "vs":
-		return data, &refmodel.Bin{Op: in.Op, L: l, R: &refmodel.Lit{V: in.S}, Bool: in.Bool}
+		return data, &refmodel.Bin{Op: in.Op, L: l, R: &refmodel.Lit{V: in.S}, Bool: in.Bool, Parens: in.Parens}
 	case "sv":
-		return data, &refmodel.Bin{Op: in.Op, L: &refmodel.Lit{V: in.S}, R: l, Bool: in.Bool}
+		return data, &refmodel.Bin{Op: in.Op, L: &refmodel.Lit{V: in.S}, R: l, Bool: in.Bool, Parens: in.Parens}
 	}
-	return data, &refmodel.Bin{Op: in.Op, L: l, R: r, Bool: in.Bool}
+	return data, &refmodel.Bin{Op: in.Op, L: l, R: r, Bool: in.Bool, Parens: in.Parens}
 }
 
 func c12Check(r *vkit.Run, in c12Input) bool {
@@ -303,7 +305,8 @@ func c12Run(r *vkit.Run) {
 					}
 				}
 				for _, op := range arith {
-					for _, s := range []float64{0, 2, -3, 0.5, 0.1, 0.3} {
+					// (1e19: whole results beyond the 64-bit integers; 1e-320: a subnormal scalar, whose reciprocal is not a number one can multiply by)
+					for _, s := range []float64{0, 2, -3, 0.5, 0.1, 0.3, 1e19, 1e-320} {
 						for _, kind := range []string{"vs", "sv"} {
 							for lv := 0; lv < 2; lv++ {
 								if c12Check(r, c12Input{L: l, R: rr, Op: op, Kind: kind, S: s, LVar: lv, Range: rg}) {
@@ -333,9 +336,16 @@ func c12Run(r *vkit.Run) {
 					}
 				}
 				for _, op := range arith {
-					for _, s := range []float64{2, 0.5, 7} { // (vector() takes no sign)
+					for _, s := range []float64{2, 0.5, 7, 9223372036854775808, 1e19} { // (vector() takes no sign)
 						c12Check(r, c12Input{L: l, R: rr, Op: op, Kind: "vl", S: s, Range: rg})
 						c12Check(r, c12Input{L: l, R: rr, Op: op, Kind: "lv", S: s, Range: rg})
+					}
+				}
+				for _, op := range []string{"+", "-", "*"} {
+					for k := 0; k < 4*len(c12Chains); k++ {
+						for rv := 0; rv < 2; rv++ {
+							c12Check(r, c12Input{L: l, R: rr, Op: op, Kind: "chain", S: float64(k), RVar: rv, Range: rg})
+						}
 					}
 				}
 				for _, op := range all {
@@ -350,6 +360,16 @@ func c12Run(r *vkit.Run) {
 					for _, s := range []float64{0, 3} {
 						c12Check(r, c12Input{L: l, R: rr, Op: op, Kind: "wn", S: s, Range: rg})
 						c12Check(r, c12Input{L: l, R: rr, Op: op, Kind: "nw", S: s, Range: rg})
+					}
+				}
+				// operands in one, two and three redundant pairs of parentheses
+				for _, op := range all {
+					for pn := 1; pn <= 3; pn++ {
+						c12Check(r, c12Input{L: l, R: rr, Op: op, Kind: "vv", LVar: pn % 2, RVar: pn % 3, Range: rg, Parens: pn})
+						if op != "and" && op != "or" && op != "unless" {
+							c12Check(r, c12Input{L: l, R: rr, Op: op, Kind: "vs", S: 2, Range: rg, Parens: pn})
+							c12Check(r, c12Input{L: l, R: rr, Op: op, Kind: "sv", S: 2, Range: rg, Parens: pn})
+						}
 					}
 				}
 				for _, op := range all {
@@ -386,7 +406,7 @@ func c12Run(r *vkit.Run) {
 			r.State(fmt.Sprint(l, rr))
 		}
 	}
-	r.Note("bounds", "left/right vectors = sum by (a) (count_over_time({side=..}[10s])) for every pair of subsets of a in {1,2,3} (equal, overlapping, disjoint, empty), optionally shifted/scaled to reach 0, negatives and fractions; vector-scalar and scalar-vector for 12 operators x scalars {0,2,-3,0.5,0.1,0.3}; comparisons with and without the bool modifier; vector(n) against a literal on every step; labelled series against vector(n); two grouping labels listed in different orders on the two sides; the empty label set produced by without(all labels); two literal operations in a row (+, -, * with constants that absorb or overflow, in the four nestings); a left side that is empty at whole steps; comparisons of operands that differ by 1e-10 or by one ulp; vector-vector for 15 operators x 6 operand variants; instant and 4-step range in which series appear, persist and disappear on either side; for the 16 pairs with >= 2 series on both sides, 6 operators x instant/range under every hash-map iteration order within 1 (thorough: 2) rotated iterations")
+	r.Note("bounds", "left/right vectors = sum by (a) (count_over_time({side=..}[10s])) for every pair of subsets of a in {1,2,3} (equal, overlapping, disjoint, empty), optionally shifted/scaled to reach 0, negatives and fractions; vector-scalar and scalar-vector for 12 operators x scalars {0,2,-3,0.5,0.1,0.3,1e19,1e-320}; comparisons with and without the bool modifier; vector(n) against a literal on every step; labelled series against vector(n); two grouping labels listed in different orders on the two sides; the empty label set produced by without(all labels); two literal operations in a row (+, -, * with constants that absorb or overflow, in the four nestings); a left side that is empty at whole steps; comparisons of operands that differ by 1e-10 or by one ulp; vector-vector for 15 operators x 6 operand variants; instant and 4-step range in which series appear, persist and disappear on either side; for the 16 pairs with >= 2 series on both sides, 6 operators x instant/range under every hash-map iteration order within 1 (thorough: 2) rotated iterations")
 }
 
 func c12Replay(r *vkit.Run, v vkit.Violation) *vkit.Violation {
